@@ -71,6 +71,18 @@ Files that mention odML without being odML (LOOKALIKE) join the kinds that have 
 vocabulary with the odML root / element names in a comment, a processing instruction, in text / CDATA / an attribute
 value, in the name of its root (odMLTerms), with an odML element below a foreign root; plain text with an odML start
 tag; JSON / YAML that is not odML but uses the words Document and odml-version.
+
+run_hostile(tier, seed): text that means something to a formatting layer (HOSTILE: %-formats, str.format fields,
+backslash escapes, $-templates, quotes, all at once) at every text position of a valid file (H_POSITIONS: document
+author / version, Section name / type / definition at two depths, Property name / definition, value text, unit, text of
+a dropped element) crossed with every element of the 1.0 vocabulary that 1.1 does not have (H_ELEMENTS: Value checksum /
+encoder / unknown tag / file reference without value / binary content / second unit, Property and Section mapping /
+synonym / unknown tag, Document unknown tag) - so that whatever a tool says about what it left out, it says it with
+such text in the message.  The files are valid: the oracle is the one above (every file gets its output with the content
+of its source, the run completes, inputs untouched).  Properties whose 1.0 values have no certain 1.1 counterpart
+(binary content, file reference without value, values with different units) are compared by name only.  Not generated:
+unnamed Properties and repository / include links (whether such a file is convertible, and what a link to nowhere
+becomes, the statement does not say; links would also need a network).
 """
 from __future__ import annotations
 
@@ -151,11 +163,16 @@ def content(base, variant, rep='ascii'):
     return {'author': r['author'], 'date': DOC_DATE, 'version': DOC_VERSION, 'secs': secs}
 
 
-def canon(cont):
-    """Order independent canonical form of a content tree (document attributes + Section forest)."""
+def canon(cont, loose=()):
+    """Order independent canonical form of a content tree (document attributes + Section forest). Properties whose
+    name is in `loose` count with their name only (the statement does not say what becomes of their 1.0 values)."""
+    def prop(p):
+        if p['name'] in loose:
+            return (p['name'], '', '', ())
+        return (p['name'], p['dtype'], p['unit'], tuple(p['values']))
+
     def sec(s):
-        return (s['name'], s['type'],
-                tuple(sorted((p['name'], p['dtype'], p['unit'], tuple(p['values'])) for p in s['props'])),
+        return (s['name'], s['type'], tuple(sorted(prop(p) for p in s['props'])),
                 tuple(sorted(sec(c) for c in s['secs'])))
     return (('author', cont.get('author')), ('date', cont.get('date')), ('version', cont.get('version')),
             tuple(sorted(sec(s) for s in cont['secs'])))
@@ -933,6 +950,8 @@ def vlabel(kind, var):
     """Stable label of a stored form for failure classes."""
     if var is None:
         return kind
+    if var[0] == 'hostile':
+        return hostile_label(kind, var[1])
     form, rep = var[:2]
     if len(var) > 2:
         syntax = var[2] if '+' not in var[2] else 'several-markup-features'
@@ -979,6 +998,154 @@ def render(kind, cont, var):
     if how == 'raw-crlf':
         text = text.replace('\n', '\r\n')
     return bom + text.encode(codec)
+
+
+# ---------------------------------------------------------------------------------------------
+# hostile text x elements of the 1.0 vocabulary that 1.1 does not have
+#
+# A converter tells the user what it left out, and the message quotes the file: Section name and type, Property
+# name, the tag and the text of the element.  Whether that works depends on the TEXT: text that means something to
+# a formatting layer (%-formats, str.format fields, backslash escapes, $-templates, quotes).  The space is
+#       hostile text  x  text position of a valid file  x  element of the 1.0 vocabulary that is dropped / logged
+# The files stay valid (the texts are ordinary names, types, units, string values), so each must get its output
+# with the content of its source and the run must complete.  What the 1.0 vocabulary has and 1.1 has not is written
+# down from the format descriptions (Value: checksum, encoder, filename of binary content, data type binary, one
+# unit per value; Property / Section: mapping, synonym; any level: tags of other tools).  Properties whose 1.0 values
+# have no certain 1.1 counterpart (binary content, file reference without value, values with different units) are
+# 'loose': only their presence under their name is demanded.
+# ---------------------------------------------------------------------------------------------
+
+# (label, group, text); no leading / trailing white space, no list syntax (brackets, commas): one text = one value
+HOSTILE = [
+    ('percent', 'percent', '%'), ('percent-in-a-phrase', 'percent', 'duty cycle in %'), ('percent-s', 'percent', '%s'),
+    ('percent-d', 'percent', '%d'), ('percent-mapping', 'percent', '%(x)s'), ('percent-at-the-end', 'percent', '100%'),
+    ('percent-doubled', 'percent', '%%'), ('percent-other-conversions', 'percent', '%r %5.2f %i'),
+    ('braces-empty', 'braces', '{}'), ('braces-index', 'braces', '{0}'), ('braces-name', 'braces', '{x}'),
+    ('brace-open', 'braces', '{'), ('brace-close', 'braces', '}'), ('braces-attribute', 'braces', '{0.__class__}'),
+    ('backslash', 'backslash', '\\'), ('backslash-at-the-end', 'backslash', 'C:\\dir\\'),
+    ('backslash-n', 'backslash', 'a\\nb'), ('backslash-u-too-short', 'backslash', '\\u12'),
+    ('backslash-group', 'backslash', '\\1 \\g<0>'),
+    ('dollar', 'dollar', '$x ${y} $$'),
+    ('quotes', 'quotes', '\'"'), ('apostrophe', 'quotes', "it's"), ('double-quotes', 'quotes', '"q"'),
+    ('triple-quotes', 'quotes', '\'\'\'"""'),
+    # all kinds at once: a formatting layer that chokes on one of them chokes on this
+    ('everything', 'mixed', '%s %d %(x)s 5% {} {0} {x} { } \\ \\u12 $x \' " 100%'),
+]
+HOSTILE_TEXT = dict((lab, text) for lab, _, text in HOSTILE)
+HOSTILE_GROUP = dict((lab, grp) for lab, grp, _ in HOSTILE)
+HOSTILE_QUICK = ('percent', 'percent-in-a-phrase', 'percent-s', 'percent-mapping', 'braces-index', 'brace-open',
+                 'backslash-at-the-end', 'quotes', 'everything')
+HOSTILE_QUICK_RDF = ('percent-in-a-phrase', 'percent-s', 'braces-index', 'backslash-at-the-end', 'everything')
+
+# text positions of a valid file ('dropped-element-text': the text of the elements below)
+H_POSITIONS = ('document-author', 'document-version', 'section-name', 'section-type', 'section-definition',
+               'subsection-name', 'subsection-type', 'property-name', 'property-definition', 'value-text', 'value-unit',
+               'dropped-element-text')
+H_POSITIONS_V11 = ('document-author', 'document-version', 'section-name', 'section-type', 'subsection-name',
+                   'subsection-type', 'property-name', 'value-text', 'value-unit')
+# element -> (level, tag, plain text): elements that are simply not part of 1.1
+DROPPED = {
+    'value:checksum': ('value', 'checksum', 'crc32$1a2b'),
+    'value:encoder': ('value', 'encoder', 'base64'),
+    'value:unknown-tag': ('value', 'vnote', 'checked by hand'),
+    'property:mapping': ('property', 'mapping', 'map#Stimulus:Duration'),
+    'property:synonym': ('property', 'synonym', 'alias'),
+    'property:unknown-tag': ('property', 'pnote', 'checked by hand'),
+    'section:mapping': ('section', 'mapping', 'map#Stimulus'),
+    'section:synonym': ('section', 'synonym', 'alias'),
+    'section:unknown-tag': ('section', 'snote', 'checked by hand'),
+    'document:unknown-tag': ('document', 'dnote', 'checked by hand'),
+}
+# 1.0 values that have no certain 1.1 counterpart: each adds a Property of its own (compared by name only)
+LOOSE_ELEMENTS = ('value:binary-file-reference', 'value:binary-content', 'value:differing-unit')
+H_ELEMENTS = tuple(DROPPED) + LOOSE_ELEMENTS
+
+
+def hostile_label(kind, spec):
+    hl, pos, elem = spec
+    return '%s:hostile-text:%s-in-%s:next-to-%s' % (kind, HOSTILE_GROUP[hl], pos, elem or 'no-dropped-element')
+
+
+def hostile_doc(base, spec):
+    """(1.0 document model of b_C15, abstract content) of the file `base` for spec = (hostile text, position | 'every',
+    element | 'every' | None)."""
+    hl, pos, elem = spec
+    text = HOSTILE_TEXT[hl]
+
+    def t(where, plain, sfx=''):
+        return text + sfx if pos in (where, 'every') else plain
+
+    def has(e):
+        return elem == 'every' or elem == e
+
+    def extras(level):
+        return [(tag, t('dropped-element-text', plain)) for e, (lvl, tag, plain) in DROPPED.items()
+                if lvl == level and has(e)]
+
+    vx = extras('value')
+    unit = t('value-unit', 'mV')
+    names = {'a': t('property-name', 'a'), 'n': t('property-name', 'n', ' n'), 'b': t('property-name', 'b', ' b')}
+    vals = {'a': t('value-text', 'some text'), 'b': t('value-text', 'more text')}
+    pa = g.P(names['a'], [g.V(vals['a'], ('type', 'string'), ('unit', unit), *vx)],
+             attrs=[('definition', t('property-definition', 'definition of a'))] + extras('property'))
+    pn = g.P(names['n'], [g.V('1', ('type', 'int'), ('unit', 'mV')), g.V('2', *(vx + [('type', 'int'), ('unit', 'mV')]))])
+    pb = g.P(names['b'], [g.V(vals['b'], ('type', 'string'), *vx)], attrs=extras('property'))
+    top_props = [pa, pn]
+    want_props = [{'name': names['a'], 'dtype': 'string', 'unit': unit, 'values': [vals['a']]},
+                  {'name': names['n'], 'dtype': 'int', 'unit': 'mV', 'values': ['1', '2']}]
+    loose = []
+
+    def add_loose(plain_name, values):
+        name = t('property-name', plain_name, ' ' + plain_name)
+        top_props.append(g.P(name, values))
+        want_props.append({'name': name, 'dtype': None, 'unit': None, 'values': []})
+        loose.append(name)
+
+    if has('value:binary-file-reference'):
+        add_loose('trace file', [g.V(None, ('type', 'binary'), ('filename', t('dropped-element-text', 'data/trace.bin')),
+                                     ('encoder', 'base64'), ('checksum', t('dropped-element-text', 'crc32$0')))])
+    if has('value:binary-content'):
+        add_loose('blob', [g.V('aGVsbG8=', ('type', 'binary'), ('encoder', t('dropped-element-text', 'base64')),
+                               ('checksum', 'crc32$3610a686'))])
+    if has('value:differing-unit'):
+        add_loose('mixed units', [g.V('1', ('type', 'int'), ('unit', 'mV')),
+                                  g.V('2', ('type', 'int'), ('unit', t('dropped-element-text', 'uV')))])
+    top_name, top_type = t('section-name', 'S' + base), t('section-type', 'rec/t')
+    sub_name, sub_type = t('subsection-name', 'C' + base, ' sub'), t('subsection-type', 't2')
+    author, version = t('document-author', 'author of ' + base), t('document-version', DOC_VERSION)
+    sub = g.S(sub_name, [pb], [], attrs=extras('section'), type_=sub_type)
+    top = g.S(top_name, top_props, [sub], type_=top_type,
+              attrs=[('definition', t('section-definition', 'definition of the section'))] + extras('section'))
+    other = g.S('T' + base, [g.P('p3', [g.V('0.5', ('type', 'float'))])], type_='t')
+    doc = g.D([top, other], attrs=[('author', author), ('date', DOC_DATE), ('version', version)] + extras('document'))
+    cont = {'author': author, 'date': DOC_DATE, 'version': version, 'loose': loose, 'secs': [
+        {'name': top_name, 'type': top_type, 'props': want_props, 'secs': [
+            {'name': sub_name, 'type': sub_type, 'secs': [], 'props': [
+                {'name': names['b'], 'dtype': 'string', 'unit': None, 'values': [vals['b']]}]}]},
+        {'name': 'T' + base, 'type': 't', 'secs': [],
+         'props': [{'name': 'p3', 'dtype': 'float', 'unit': None, 'values': ['0.5']}]}]}
+    return doc, cont
+
+
+def hostile_file(kind, base, spec):
+    """(abstract content, bytes) of one valid input file with hostile text."""
+    doc, cont = hostile_doc(base, spec)
+    if kind.startswith('v11'):
+        # 1.1 has none of the elements above: the same content written as current-version file
+        assert spec[2] is None and not cont['loose']
+        if kind.endswith(('xml', 'odml')):
+            text = v11_xml(cont)
+        elif kind.endswith('json'):
+            text = json.dumps(v11_dict(cont), indent=1, ensure_ascii=False)
+        else:
+            text = _ydump(v11_dict(cont), sort_keys=False, allow_unicode=True, width=80)
+    elif kind.endswith(('xml', 'odml')):
+        text = g.to_xml(doc)
+    elif kind.endswith('json'):
+        text = g.to_json(doc)
+    else:
+        text = _ydump(g.to_dict(doc, 'YAML'), sort_keys=False, allow_unicode=True, width=80)
+    return cont, text.encode('utf-8')
 
 
 # ---------------------------------------------------------------------------------------------
@@ -1139,7 +1306,10 @@ class Case(object):
                 base = 'M\u00e4ssung\u65e5_%02d_%s' % (i, kind.replace('-', ''))
             if kind not in GOOD:
                 var = None
-            if shared:
+            data = None
+            if var and var[0] == 'hostile':
+                cont, data = hostile_file(kind, base, var[1])
+            elif shared:
                 cont = shared_content(base)
             else:
                 cont = content(base, i % 3, var[1] if var else 'ascii') if kind in GOOD else None
@@ -1147,7 +1317,7 @@ class Case(object):
             os.makedirs(d, exist_ok=True)
             path = os.path.join(d, base + ext)
             with open(path, 'wb') as f:
-                f.write(render(kind, cont, var))
+                f.write(render(kind, cont, var) if data is None else data)
             if kind not in GOOD:
                 cont = None
             self.files.append({'base': base, 'kind': kind, 'sub': sub, 'path': path, 'content': cont,
@@ -1268,8 +1438,9 @@ def check_odml_output(ck, case, tool, rel, src, wit):
                 % (rel, src['rel'], doc))
         return
     cont = odml_content(doc)
-    got = canon(_norm_values(cont))
-    want = canon(_norm_values(src['content']))
+    loose = tuple(src['content'].get('loose', ()))
+    got = canon(_norm_values(cont), loose)
+    want = canon(_norm_values(src['content']), loose)
     if got != want:
         ck.fail('output-content', _feat(case, tool, src), wit, 'output %s of %s: content %r, expected %r'
                 % (rel, src['rel'], got, want))
@@ -1284,8 +1455,9 @@ def check_rdf_output(ck, case, tool, rel, src, parse_format, wit):
         ck.fail('output-loads', _feat(case, tool, src), wit, 'output %s of %s does not parse as %s RDF '
                 'with one odml Document: %r' % (rel, src['rel'], parse_format, cont))
         return
-    got = canon(_norm_values(cont))
-    want = canon(_norm_values(src['content']))
+    loose = tuple(src['content'].get('loose', ()))
+    got = canon(_norm_values(cont), loose)
+    want = canon(_norm_values(src['content']), loose)
     if got != want:
         ck.fail('output-content', _feat(case, tool, src), wit, 'RDF output %s of %s: content %r, expected %r'
                 % (rel, src['rel'], got, want))
@@ -1982,6 +2154,122 @@ def run_batch(tier, seed):
                             case.cleanup()
         # ---- files that share names, ids and structure; files that go wrong in the middle; usage histories
         shared_cases(tier, seed, col, ck)
+    finally:
+        shutil.rmtree(WORK, ignore_errors=True)
+    res = col.result()
+    res['failure_classes'] = ck.summary()
+    return res
+
+
+# ---------------------------------------------------------------------------------------------
+# hostile text x dropped elements (see HOSTILE / H_POSITIONS / H_ELEMENTS)
+# ---------------------------------------------------------------------------------------------
+
+V10_KINDS = ('v10-xml', 'v10-odml', 'v10-json', 'v10-yaml')
+V11_KINDS = ('v11-xml', 'v11-odml', 'v11-json', 'v11-yaml')
+
+
+def _hv(hl, pos, elem):
+    return ('hostile', (hl, pos, elem))
+
+
+def hostile_layouts(tier):
+    """(key, layout, tools, expect_ok for the format converter) of the hostile text dimension."""
+    quick = tier == 'quick'
+    texts = [lab for lab, _, _ in HOSTILE if not quick or lab in HOSTILE_QUICK]
+    elems = (None,) + H_ELEMENTS
+    # (1) the text at every position at once, every dropped element at once, every 1.0 format in one directory, next
+    # to a file that has to be skipped (command line tools) / valid files only (format converter)
+    for i, hl in enumerate(texts):
+        var = _hv(hl, 'every', 'every')
+        bad = CORE_BAD[i % len(CORE_BAD)]
+        lay = [('', k, var) for k in V10_KINDS]
+        lay.insert(i % 5, ('', bad))
+        yield ('hostile-every', hl, 'with-' + bad), lay, CLI_TOOLS if not quick or hl in HOSTILE_QUICK_RDF else CLI_TOOLS[:1], None
+        yield ('hostile-every', hl), [('', 'v10-xml', var), ('sub', 'v10-odml', var)], ('formatconverter',), 'v1_1'
+    # (2) one position x one element (none included): a directory per (text, position) holds one file per element,
+    # formats round robin; a file that does not convert must not keep the others from theirs.  odmlconvert: the whole
+    # matrix for every text (quick: 2 texts), two format assignments for the percent group and the mixture; odmltordf
+    # (four times the cost per file): the whole matrix for the percent group and the mixture, a third of the elements
+    # (rotating with the position) for the other texts (quick: for one of the 2 texts per position)
+    matrix_texts = ('percent-in-a-phrase', 'everything') if quick else texts
+    for i, hl in enumerate(matrix_texts):
+        core = HOSTILE_GROUP[hl] == 'percent' or hl == 'everything'
+        for j, pos in enumerate(H_POSITIONS):
+            for shift in ((i + j) % 4,) if quick or not core else ((i + j) % 4, (i + j + 2) % 4):
+                lay = [('', V10_KINDS[(k + shift) % 4], _hv(hl, pos, e)) for k, e in enumerate(elems)]
+                yield ('hostile-matrix', hl, pos, shift), lay, ('odmlconvert',), None
+            if quick and (i + j) % 2:
+                continue
+            thin = quick or not core
+            lay = [('', V10_KINDS[(k + i + j + 1) % 4], _hv(hl, pos, e)) for k, e in enumerate(elems)
+                   if not thin or k % 3 == j % 3]
+            yield ('hostile-matrix', hl, pos, 'third-of-the-elements' if thin else 'all-elements'), lay, ('odmltordf',), None
+    # (3) the format converter promises nothing about the files after one that fails: one (position, element) per
+    # directory; quick: a diagonal through the matrix
+    fc_texts = ('percent-in-a-phrase', 'everything') if quick else ('percent', 'percent-in-a-phrase', 'percent-s',
+                                                                     'braces-index', 'backslash-at-the-end', 'everything')
+    n = 0
+    for j, pos in enumerate(H_POSITIONS):
+        for k, e in enumerate(elems):
+            if quick and (j + k) % len(H_POSITIONS) not in (0, 5):
+                continue
+            hl = fc_texts[n % len(fc_texts)]
+            n += 1
+            yield (('hostile-single', hl, pos, e), [('', 'v10-xml', _hv(hl, pos, e)), ('', 'v10-odml', _hv(hl, pos, e))],
+                   ('formatconverter',), 'v1_1')
+    # (4) current-version files carry the same texts (nothing to drop there): all positions at once and one by one
+    for i, hl in enumerate(texts):
+        if quick and hl not in HOSTILE_QUICK_RDF:
+            continue
+        var = _hv(hl, 'every', None)
+        yield ('hostile-every-1.1', hl), [('', k, var) for k in V11_KINDS], CLI_TOOLS, None
+        target = FC_RDF_CYCLE[i % len(FC_RDF_CYCLE)]
+        yield (('hostile-every-1.1', hl), [('', 'v11-xml', var), ('sub', 'v11-odml', var)], ('formatconverter',), target)
+    for i, hl in enumerate(matrix_texts[-1:] if quick else matrix_texts):
+        lay = [('', V11_KINDS[(i + j) % 4], _hv(hl, pos, None)) for j, pos in enumerate(H_POSITIONS_V11)]
+        yield ('hostile-positions-1.1', hl), lay, ('odmltordf',), None
+
+
+def run_hostile(tier, seed):
+    col = h.Collector(
+        'C17.hostile',
+        rule='one case = (directory of valid files with hostile text, tool, recursive, explicit output[, target]); '
+             'hostile text = %d texts (quick %d) in 6 groups (percent formats, str.format fields, backslash escapes, '
+             '$-templates, quotes, all at once) x position = %d text positions of a valid 1.0 file (document author / '
+             'version, Section name / type / definition at two depths, Property name / definition, value text, unit, text '
+             'of the dropped element) x element = none + %d elements of the 1.0 vocabulary that 1.1 does not have (Value: '
+             'checksum, encoder, unknown tag, file reference without value, binary content, second unit; Property / '
+             'Section: mapping, synonym, unknown tag; Document: unknown tag); (1) every position x every element in one '
+             'file, all four 1.0 formats in one directory next to a file that has to be skipped, both command line tools + '
+             'format converter v1_1; (2) full position x element matrix, one directory per (text, position) with a file per '
+             'element, formats round robin (thorough: all texts, every format for the percent group and the mixture; quick: '
+             '2 texts, tools alternating); (3) format converter v1_1 with one (position, element) per directory (thorough: '
+             'whole matrix, 6 texts round robin; quick: a diagonal); (4) the same texts in 1.1 files (9 positions, at once '
+             'and one by one) for both command line tools and the RDF targets of the format converter; '
+             'class key = (layout key, tool, configuration)'
+             % (len(HOSTILE), len(HOSTILE_QUICK), len(H_POSITIONS), len(H_ELEMENTS)),
+        exhaustive=False)
+    ck = Checker(col)
+    shutil.rmtree(WORK, ignore_errors=True)
+    os.makedirs(WORK)
+    try:
+        for n, (key, layout, tools, target) in enumerate(hostile_layouts(tier)):
+            for ti, tool in enumerate(tools):
+                if tool == 'formatconverter':
+                    recursive, explicit = True, bool(n % 2)
+                else:
+                    recursive, explicit = CONFIGS[(n + ti) % 4]
+                case = Case(layout)
+                col.case(cls_key=(key, tool, target, recursive, explicit),
+                         sample='%s %r -r=%s -o=%s' % (tool, key, recursive, explicit))
+                try:
+                    if tool == 'formatconverter':
+                        run_fc(ck, case, target, recursive, explicit, bool(n % 3 == 0), expect_ok=True)
+                    else:
+                        run_cli(ck, case, tool, recursive, explicit)
+                finally:
+                    case.cleanup()
     finally:
         shutil.rmtree(WORK, ignore_errors=True)
     res = col.result()
